@@ -186,7 +186,31 @@ struct TempArgs {
   double mean[NUMBER_OF_IONNAMES], heat[NUMBER_OF_HEATINGTERMS], met0[12];
 };
 
-static void fill_vars(const TempArgs &a, IonizationVariables &iv) {
+/// sentinel every ionic fraction of a "fresh" cell is pre-filled with: an output that some
+/// branch forgets to (re)assign shows up as 0.123 (fresh cell) resp. as a left-over of the
+/// previous update (re-used cell)
+static const double SENTINEL = 0.123;
+
+/// the one cell that is re-used by all `cell`/`temp` ops since the last `newcell`
+static IonizationVariables *g_hist = nullptr;
+
+static std::string state_text(const IonizationVariables &iv) {
+  std::ostringstream o;
+  o << showF(iv.get_temperature());
+  for (int i = 0; i < NUMBER_OF_IONNAMES; ++i)
+    o << " " << showF(iv.get_ionic_fraction(i));
+  return o.str();
+}
+static double tokval(const std::string &t) { return t == "nan" ? NAN : dbl(t); }
+/// r[o] = temperature, r[o+1..o+14] = ionic fractions
+static void load_state(IonizationVariables &iv, const std::vector< std::string > &r, size_t o) {
+  iv.set_temperature(tokval(r[o]));
+  for (int i = 0; i < NUMBER_OF_IONNAMES; ++i)
+    iv.set_ionic_fraction(i, tokval(r[o + 1 + i]));
+}
+
+/// the inputs of an update (what the simulation sets before it calls the calculators)
+static void fill_inputs(const TempArgs &a, IonizationVariables &iv) {
   iv.set_number_density(a.n);
   iv.set_temperature(a.Told);
   iv.set_cosmic_ray_factor(a.crcell);
@@ -194,23 +218,33 @@ static void fill_vars(const TempArgs &a, IonizationVariables &iv) {
     iv.set_mean_intensity(i, a.mean[i]);
   for (int i = 0; i < NUMBER_OF_HEATINGTERMS; ++i)
     iv.set_heating(i, a.heat[i]);
+}
+/// fresh cell: inputs + sentinel pattern in H, He and the stored coolant fractions of the line
+static void fill_vars(const TempArgs &a, IonizationVariables &iv) {
+  fill_inputs(a, iv);
+  iv.set_ionic_fraction(0, SENTINEL);
+  iv.set_ionic_fraction(1, SENTINEL);
   for (int i = 0; i < 12; ++i)
     iv.set_ionic_fraction(2 + i, a.met0[i]);
 }
 
 /// the real calculate_temperature for one cell; rr = recombination rates to use ---------------
-static std::string run_temp(const TempArgs &a, const RecombinationRates &rr) {
+static std::string run_temp(const TempArgs &a, const RecombinationRates &rr,
+                            IonizationVariables *reuse = nullptr) {
   Abundances ab(a.AHe, a.AC, a.AN, a.AO, a.ANe, a.AS);
   TemperatureCalculator calc(true, 0, 1., ab, a.eps, a.maxit, a.pah, a.crfac, a.crlim, a.crscale,
                              a.tmin, W->data, rr, W->ctr, nullptr);
   IonizationVariables iv;
   fill_vars(a, iv);
   calc.calculate_temperature(iv, a.jfac, a.hfac, CoordinateVector<>(0., 0., a.z));
-  std::ostringstream o;
-  o << showF(iv.get_temperature());
-  for (int i = 0; i < NUMBER_OF_IONNAMES; ++i)
-    o << " " << showF(iv.get_ionic_fraction(i));
-  return o.str();
+  std::string res = state_text(iv);
+  if (reuse != nullptr) {
+    // the same update on the cell that went through the previous updates of this history
+    fill_inputs(a, *reuse);
+    calc.calculate_temperature(*reuse, a.jfac, a.hfac, CoordinateVector<>(0., 0., a.z));
+    res += " | " + state_text(*reuse);
+  }
+  return res;
 }
 
 /// table of the real balance function at the temperatures in Ts -------------------------------
@@ -272,7 +306,7 @@ static TempArgs parse_scalars(const std::vector< std::string > &w, size_t o, boo
   a.tmin = dbl(w[i++]);
   a.maxit = u64(w[i++]);
   for (int k = 0; k < 12; ++k)
-    a.met0[k] = 0.;
+    a.met0[k] = SENTINEL;
   return a;
 }
 
@@ -296,7 +330,7 @@ static std::string scalars_text(const TempArgs &a) {
 static std::string prep_line(const std::vector< std::string > &w) {
   const std::string &op = w[0];
   std::ostringstream o;
-  if (op == "h0" || op == "h0m") {
+  if (op == "h0" || op == "h0m" || op == "newcell") {
     return join(w);
   } else if (op == "h0T" && w.size() == 4) {
     o << "h0 " << showF(W->rates.get_recombination_rate(ION_H_n, dbl(w[3]))) << " " << w[1] << " "
@@ -411,6 +445,7 @@ static double h0_residual(double aH, double jH, double nH, double x) {
 
 int main(int argc, char **argv) {
   W = new World();
+  g_hist = new IonizationVariables();
   const bool prep = argc > 1 && std::string(argv[1]) == "--prep";
   std::string line;
   uint64_t lineno = 0;
@@ -549,26 +584,56 @@ int main(int argc, char **argv) {
             [&]() {
               Abundances ab(AHe, 0., 0., 0., 0., 0.);
               IonizationStateCalculator isc(1., ab, W->rates, W->ctr);
+              const double hfac =
+                  jfac * PhysicalConstants::get_physical_constant(PHYSICALCONSTANT_PLANCK);
+              // fresh cell, every fraction pre-filled with the sentinel
               IonizationVariables iv;
               iv.set_number_density(n);
               iv.set_temperature(T);
-              for (int i = 0; i < 14; ++i)
+              for (int i = 0; i < 14; ++i) {
                 iv.set_mean_intensity(i, dbl(w[5 + i]));
-              isc.calculate_ionization_state(
-                  jfac, jfac * PhysicalConstants::get_physical_constant(PHYSICALCONSTANT_PLANCK),
-                  iv);
+                iv.set_ionic_fraction(i, SENTINEL);
+              }
+              isc.calculate_ionization_state(jfac, hfac, iv);
               std::ostringstream o;
               for (int i = 0; i < 14; ++i)
                 o << (i ? " " : "") << showF(iv.get_ionic_fraction(i));
+              // the same update on the re-used cell of this history
+              IonizationVariables &hv = *g_hist;
+              hv.set_number_density(n);
+              hv.set_temperature(T);
+              for (int i = 0; i < 14; ++i)
+                hv.set_mean_intensity(i, dbl(w[5 + i]));
+              hv.set_heating(0, 0.);
+              hv.set_heating(1, 0.);
+              isc.calculate_ionization_state(jfac, hfac, hv);
+              o << " | " << state_text(hv);
               return o.str();
             },
             res, status);
+        std::string reused;
+        if (ok) {
+          const size_t bar = res.find(" | ");
+          reused = res.substr(bar + 3);
+          res = res.substr(0, bar);
+        }
         if (!ok) {
           std::cout << "cell abort\n";
           if (op == "cell")
             bad << " cell:abort " << why(status);
         } else {
           std::cout << "cell " << res << "\n";
+          {
+            // outputs must depend on the inputs of this update only
+            auto rf = words(res), rh = words(reused);
+            for (int i = 0; i < 14; ++i)
+              if (rf[i] != rh[1 + i]) {
+                bad << " cell:depends-on-previous-state ion-index=" << i
+                    << " fresh-cell=" << tokval(rf[i]) << " reused-cell=" << tokval(rh[1 + i]);
+                break;
+              }
+            load_state(*g_hist, rh, 0);
+          }
           if (op == "cell") {
             auto r = words(res);
             double f[14];
@@ -600,12 +665,23 @@ int main(int argc, char **argv) {
         a.met0[i] = dbl(w[36 + i]);
       std::string res;
       int status;
-      const bool ok = in_child([&]() { return run_temp(a, W->rates); }, res, status);
+      const bool ok = in_child([&]() { return run_temp(a, W->rates, g_hist); }, res, status);
       if (!ok) {
         std::cout << "temp abort\n";
         bad << " temp:abort " << why(status);
       } else {
         auto r = words(res);
+        {
+          // r = fresh-cell state (15 tokens), "|", re-used cell state (15 tokens)
+          for (int i = 0; i < 15; ++i)
+            if (r[i] != r[16 + i]) {
+              bad << " temp:depends-on-previous-state "
+                  << (i == 0 ? std::string("temperature") : "ion-index=" + std::to_string(i - 1))
+                  << " fresh-cell=" << tokval(r[i]) << " reused-cell=" << tokval(r[16 + i]);
+              break;
+            }
+          load_state(*g_hist, r, 16);
+        }
         std::cout << "temp " << r[0] << " " << r[1] << " " << r[2];
         for (int i = 0; i < 12; ++i)
           std::cout << " " << r[3 + i];
@@ -633,6 +709,10 @@ int main(int argc, char **argv) {
             bad << " temp:stage-sum-above-1";
         }
       }
+    } else if (op == "newcell") {
+      delete g_hist;
+      g_hist = new IonizationVariables();
+      std::cout << "newcell\n";
     } else if (op == "abort") {
       // the implementation aborted while this line was prepared: reproduce
       std::vector< std::string > raw(w.begin() + 1, w.end());
